@@ -189,6 +189,7 @@ def main(argv):
 
     # ---- merge
     ob_reports, all_cex, inconclusive = [], list(witness_cex), []
+    suspects = []
     tot = dict(paths=0, confirmed=0, ignored=0, unknown=0, refuted=0, native_ok=0, solver_queries=0,
                solver_s=0.0, distinct=0, e2_queries=0)
     functions = set()
@@ -264,6 +265,7 @@ def main(argv):
             rep['decided'] = bool(good) and rep.get('unknown', 0) == 0 and all(r.get('decided', True) for r in good)
             rep['wall_s'] = max([r.get('wall_s', r.get('proc_wall_s', 0)) for r in good] or [0])
         cex = [dict(c, obligation=ob.id) for r in good for c in r.get('cex', [])]
+        suspects += [dict(c, obligation=ob.id, suspect=True) for r in good for c in r.get('suspects', [])]
         rep['refuted'] = len(cex) if ob.engine != 'E1' else rep.get('refuted', 0)
         all_cex += cex
         if not rep['decided'] and not cex:
@@ -278,7 +280,7 @@ def main(argv):
     for old in os.listdir(os.path.join(ROOT, 'replays')):
         if old.startswith(prop + '_') and old.endswith('.json'):
             os.remove(os.path.join(ROOT, 'replays', old))
-    for i, c in enumerate(all_cex):
+    for i, c in enumerate(all_cex + suspects):
         key = (c['obligation'], json.dumps(c['args'], sort_keys=True))
         if key in seen or per_ob.get(c['obligation'], 0) >= 2:
             continue   # at most two replayed counterexamples per obligation; the rest are counted in the evidence
@@ -301,6 +303,8 @@ def main(argv):
                            capture_output=True, text=True, timeout=600)
         if p.returncode == 1:
             violations.append((path, rec))
+        elif c.get('suspect'):
+            os.remove(path)        # a traced-only failure that does not reproduce in a fresh process either: stays an inconclusive path
         else:
             harness_errors.append(f"counterexample of {c['obligation']} did not reproduce in a fresh native process: "
                                   f"{json.dumps(c['args'], ensure_ascii=False)[:300]} :: {p.stdout[-300:]} {p.stderr[-300:]}")
